@@ -103,6 +103,8 @@ def check_case(ctx, cs):
             configs.append((["span=" + sname, "normalize_kv=False", "a=%g" % a], lambda sf=sf, im=im: build(im["shape"], span_func=sf, normalize_kv=False), iprm, a))
             # the same raw knot vectors given to an object that normalises them: original parameters apply again
             configs.append((["span=" + sname, "normalize_kv=True", "raw_input"], lambda sf=sf, im=im: build(im["shape"], span_func=sf, normalize_kv=True), prm, 1.0))
+    # the same query with control points / knots as tuples with Python ints and integral parameter values as ints
+    configs.append((["normalize_kv=True", "tuples_and_ints"], lambda: build(sh, alt_repr=True), [int(x) if float(x).is_integer() else x for x in prm], 1.0))
     for ctag, mk, p, a in configs:
         site = ("NURBS." if sh["rat"] else "BSpline.") + KIND[pd].capitalize() + ".evaluate_single"
         ok, obj = _try(ctx, site, tg + ctag + ["build"], small, mk)
@@ -116,7 +118,7 @@ def check_case(ctx, cs):
         if ok and not close_seq([list(x) for x in r], [exp, exp]):
             ctx.violate(site.replace("evaluate_single", "evaluate_list"), tg + ctag, small, {"expected_points": 2, "got_points": len(r), "got": r[:1]})
         # sampled grid under this configuration: same points
-        if p is prm and pd <= 2:
+        if (p is prm or "tuples_and_ints" in ctag) and pd <= 2:
             def grid():
                 obj.sample_size = 3
                 return [list(x) for x in obj.evalpts]
